@@ -41,3 +41,51 @@ class TellDerived:
         if isinstance(e, ast.NamedExpr):
             return self.derived(node_id, e.value, seen)
         return False
+
+
+class BaseCount:
+    """How many stream-position bases (``S.tell()`` of this call) an additive expression carries.
+
+    ``S.tell()`` counts 1, constants and every non-additive sub-expression (pads, sizes, relative field offsets) count 0,
+    ``a + b`` adds, ``a - b`` subtracts.  An absolute position in the caller's stream has count exactly 1;  a difference of two
+    positions (count 0) is a *relative* quantity and must not be handed to an absolute seek.
+    """
+
+    def __init__(self, g: CFG, rd: ReachingDefs, streams: set[str]):
+        self.g, self.rd, self.streams = g, rd, streams
+
+    def counts(self, node_id: int, e: ast.AST, seen: frozenset = frozenset()) -> set[int]:
+        if isinstance(e, ast.Call) and isinstance(e.func, ast.Attribute) and e.func.attr == "tell" and norm(e.func.value) in self.streams:
+            return {1}
+        if isinstance(e, ast.Name):
+            defs = self.rd.reaching(node_id, e.id)
+            if not defs:
+                return {0}
+            out: set[int] = set()
+            for nid, val in defs:
+                if (e.id, nid) in seen:
+                    continue  # loop-carried: decided by the other definitions
+                s2 = seen | {(e.id, nid)}
+                if val is None:
+                    out |= {0}
+                elif isinstance(val, ast.AugAssign):
+                    prev = self.counts(nid, ast.Name(id=e.id, ctx=ast.Load()), s2) or {0}
+                    if isinstance(val.op, (ast.Add, ast.Sub)):
+                        inc = self.counts(nid, val.value, s2) or {0}
+                        sign = 1 if isinstance(val.op, ast.Add) else -1
+                        out |= {p + sign * i for p in prev for i in inc}
+                    else:
+                        out |= {0}
+                else:
+                    out |= self.counts(nid, val, s2) or {0}
+            return out
+        if isinstance(e, ast.BinOp) and isinstance(e.op, (ast.Add, ast.Sub)):
+            l = self.counts(node_id, e.left, seen) or {0}
+            r = self.counts(node_id, e.right, seen) or {0}
+            sign = 1 if isinstance(e.op, ast.Add) else -1
+            return {a + sign * b for a in l for b in r}
+        if isinstance(e, ast.IfExp):
+            return (self.counts(node_id, e.body, seen) or {0}) | (self.counts(node_id, e.orelse, seen) or {0})
+        if isinstance(e, ast.NamedExpr):
+            return self.counts(node_id, e.value, seen)
+        return {0}
